@@ -34,6 +34,7 @@ type sysPipe struct {
 	T      *topo
 	O      sysOpts
 	Policy middleware.RecursionWorkPolicy
+	Cfg    [nKinds]uint32 // configured budgets (what the oracle judges against)
 	nextID uint16
 }
 
@@ -59,6 +60,7 @@ func newSysPipe(t *topo, o sysOpts) *sysPipe {
 		}
 	}})
 	sp.Policy = middleware.MustRecursionWorkPolicyFromConfig(sp.P.Cfg.RecursionFirewall)
+	sp.Cfg = configuredCaps([nKinds]uint32{o.OutCap, o.IntCap, 0, 0, o.SigCap, 0, 0, 0})
 	return sp
 }
 
